@@ -120,6 +120,9 @@ def check_call(contract: Contract, call: Callable[[], Any], ns_args: Dict[str, A
         out.failed_clause = "post#<evaluation>"
         out.detail = "postcondition raised %s: %s" % (type(e).__name__, e)
         return out
+    extra = getattr(contract.impl, "native_extra_post", None)
+    if extra is not None:
+        post = list(post) + [("class-invariant", extra(ns))]
     for label, c in post:
         if not bool(c):
             out.ok = False
